@@ -19,7 +19,7 @@ from harness.world.server import World
 SCRIPTS = NORMAL_SCRIPTS + UNSPENDABLE_SCRIPTS
 
 
-def one_run(res, seed, idx, cancel_at, phase, job_bias):
+def one_run(res, seed, idx, cancel_at, phase, job_bias, pressure=None):
     """Returns (fails, n_iterations, info).  cancel_at = loop iteration at which shutdown is requested
     (None: never; used to measure the length of the run)."""
     rng = rng_for(seed, 'shutdown', idx)
@@ -28,6 +28,10 @@ def one_run(res, seed, idx, cancel_at, phase, job_bias):
     d = SimDaemon(gen, rng, latency=(0, 0.01))
     d.extend(rng.randrange(6, 9), max_txs=3)     # high enough for a depth-2 reorg (C03 condition)
     srng = rng_for(seed, 'shutdown-sched', idx, cancel_at if cancel_at is not None else -1)
+    # cache pressure: what check_cache_size_loop does when the caches grow (its only effect is this
+    # assignment; the chains here are far too small for the real thresholds): a history-only or a
+    # full flush is requested at arbitrary moments
+    prng = rng_for(seed, 'shutdown-pressure', idx, cancel_at if cancel_at is not None else -1)
     w = World(d, act, 5, Scheduler(srng, job_bias=job_bias, gated=True), gated_storage=True)
     fails = []
     completed = [-1]
@@ -105,6 +109,9 @@ def one_run(res, seed, idx, cancel_at, phase, job_bias):
         state = {'phase_started': None, 'requested': False}
 
         def script(loop):
+            if pressure and w.bp.state is not None and prng.random() < 0.12:
+                w.bp.force_flush_arg = {'hist': False, 'full': True}.get(pressure, prng.random() < 0.3)
+                info['pressure_events'] = info.get('pressure_events', 0) + 1
             # environment: once caught up, feed the phase's events
             if w.caught_up_event.is_set() and state['phase_started'] is None:
                 state['phase_started'] = loop.iterations
@@ -227,22 +234,24 @@ def run(tier, seed):
                 'a flush or a block advance is mid-way; non-trivial = the request lands while a worker job is running or queued')
     phases = ['initial', 'caught_up', 'reorg', 'forced_reorg']
     all_traces = []
-    nchains = 2 if tier == 'quick' else 8
+    nchains = 6 if tier == 'quick' else 12
     for idx in range(nchains):
         for phase in phases:
             for job_bias in ((0.3,) if tier == 'quick' else (0.2, 0.6)):
+                pressure = [None, 'hist', 'mixed', 'full'][idx % 4] if tier != 'quick' else [None, 'hist', 'mixed'][idx % 3]
                 # measure the phase length without a request
-                _f, info0 = one_run(res, seed, idx, None, phase, job_bias)
+                _f, info0 = one_run(res, seed, idx, None, phase, job_bias, pressure)
                 n = min(info0.get('iterations', 0), 400)
-                stride = max(1, n // (10 if tier == 'quick' else 60))
+                stride = max(1, n // (16 if tier == 'quick' else 60))
                 for k in range(0, n, stride):
-                    fails, info = one_run(res, seed, idx, k, phase, job_bias)
-                    res.note_case(f'{idx},{phase},{job_bias},{k}', nontrivial=True)
+                    fails, info = one_run(res, seed, idx, k, phase, job_bias, pressure)
+                    res.note_case(f'{idx},{phase},{job_bias},{k},{pressure}', nontrivial=True)
+                    res.bump('cache_pressure_events', info.get('pressure_events', 0))
                     res.bump(f'requests_in_phase_{phase}')
                     for c, dtl in fails:
                         if len(res.violations) < 3:
                             res.violations.append({'suite': 'shutdown', 'clause': c, 'detail': dtl, 'seed': seed,
-                                                   'case': [idx, k, phase, job_bias]})
+                                                   'case': [idx, k, phase, job_bias, pressure]})
                     # the real trace must obey the discipline (monitor model) and, judged directly,
                     # never have two writer jobs running
                     trace = info.get('trace', ['R'])
@@ -253,10 +262,10 @@ def run(tier, seed):
                             if running > 1 and len(res.violations) < 3:
                                 res.violations.append({'suite': 'shutdown', 'clause': 'mutex',
                                                        'detail': 'two writer jobs (flush / advance / back-out) ran at the same time',
-                                                       'seed': seed, 'case': [idx, k, phase, job_bias], 'trace': trace[-30:]})
+                                                       'seed': seed, 'case': [idx, k, phase, job_bias, pressure], 'trace': trace[-30:]})
                         elif ev.startswith('JE'):
                             running -= 1
-                    all_traces.append(([idx, k, phase, job_bias], trace))
+                    all_traces.append(([idx, k, phase, job_bias, pressure], trace))
     lines = [l for _c, t in all_traces for l in t]
     got = run_evdrv('shutdown', lines)
     pos = 0
@@ -274,9 +283,10 @@ def run(tier, seed):
 
 
 def replay(case):
-    idx, k, phase, job_bias = case['case']
+    idx, k, phase, job_bias = case['case'][:4]
+    pressure = case['case'][4] if len(case['case']) > 4 else None
     res = SuiteResult('x')
-    fails, _info = one_run(res, case['seed'], idx, k, phase, job_bias)
+    fails, _info = one_run(res, case['seed'], idx, k, phase, job_bias, pressure)
     return [f'{c}: {d}' for c, d in fails]
 
 
